@@ -166,7 +166,7 @@ func checkEvictionShortfall(c *Ctx, rule string) {
 				"the evictor is asked for "+shortVal(wantArg)+" item(s) but its result is never compared with that number (at most with zero): when fewer queued messages exist than are needed, the call stores all its messages anyway — the queue ends above max_depth and fewer messages are dropped than stored")
 		}
 	}
-	c.Floor(rule, "eviction call sites", n, 4)
+	c.Floor(rule, "eviction call sites", n, 2) // one per backend; sites duplicated between Enqueue and EnqueueBatch may be shared
 }
 
 func boolSet(m map[*ssa.Function]string) map[*ssa.Function]bool {
